@@ -458,6 +458,22 @@ example : showLog cxLog
   refine ⟨by decide +kernel, by decide +kernel, by decide +kernel, by decide +kernel, by decide +kernel,
     by decide +kernel, by decide +kernel, by decide +kernel⟩
 
+/-- falsy-but-valid corner: a restart file written at `cstep = 0` (nothing issued yet), restarted with
+    ONE worker instead of two: the chain continues at ordinal 0 — the first job after the restart is
+    the very first job of the chain -/
+def czS : St := okOr exS0 (restore (persist exS0) exS0.n 1 10 [[-1]] [[0], [0], [0]] cxW)
+
+theorem cz_chain : ChainReach 7 { s := czS, jobs := [] } ([] ++ ghost { s := czS, jobs := [] } []) :=
+  ChainReach.restart (pre := []) (workers := 1) (tsteps := 10) (occ := [[-1]]) (ensEng := [[0], [0], [0]])
+    (weightOf := cxW) (s' := czS) ex_wellFormed.chain (by decide +kernel) (by decide +kernel)
+    (by intro ev hev; simp at hev) (by decide +kernel)
+
+example : czS.cstep = 0 ∧ czS.restarted = true ∧ czS.spawned = 0 ∧ czS.workers = 1
+    ∧ showLog (ghost { s := czS, jobs := [] } [.start { t := 0, e := 0 }, .initDone,
+        .step 0 .rej [] { t := 2, e := 2 }])
+      = [⟨0, true, [(-1, [0, 0], [0, 0, 0])]⟩, ⟨1, true, [(1, [1, 0], [1, 0, 0])]⟩] := by
+  refine ⟨by decide +kernel, by decide +kernel, by decide +kernel, by decide +kernel, by decide +kernel⟩
+
 /-! ## 5. The scheduler's own draws -/
 
 /-- **`scheduler_draws_accounted`** (scheduler side of "all draws come from the right stream").
